@@ -20,6 +20,11 @@ type CCase struct {
 	NIsT []int  `json:"nis_t"` // instances of the target RIB besides DEFAULT; the intended ones are always added
 	Base uint64 `json:"base"`
 	Ents []Ent  `json:"ents"`
+	// Remote: which side the reconciler reads through a RemoteRIB (a real gRIBI server in this process
+	// serving the side's rib.RIB) instead of a LocalRIB: "" none, "T" target, "I" intended, "B" both.
+	// Dial: over a loopback TLS listener with NewRemoteRIB, otherwise bufconn with NewRemoteRIBWithStub.
+	Remote string `json:"remote,omitempty"`
+	Dial   bool   `json:"dial,omitempty"`
 }
 
 func entKey(o drv.OpSpec) string { return fmt.Sprintf("%d|%s|%d", o.NI, o.T, o.Key) }
@@ -122,7 +127,19 @@ func sideOps(c CCase, side string, nis map[int]bool) []drv.OpSpec {
 
 // ---------------------------------------------------------------------------- generator
 
-type gen struct{ r *drv.Rng }
+// r draws the RIBs; rm (a stream of its own, so that the RIBs of a seed do not depend on it) how they
+// are handed to the reconciler.
+type gen struct{ r, rm *drv.Rng }
+
+// remoteMode: a quarter of the cases of every profile run with the target (half of them), both sides or
+// the intended side behind a RemoteRIB; one in five of those over loopback TLS.
+func (g *gen) remoteMode(c *CCase) {
+	if g.rm == nil || !g.rm.Chance(1, 4) {
+		return
+	}
+	c.Remote = drv.Pick(g.rm, "T", "T", "B", "I")
+	c.Dial = g.rm.Chance(1, 5)
+}
 
 func (g *gen) nhPayload(o *drv.OpSpec) {
 	o.X = nil
@@ -321,5 +338,6 @@ func (g *gen) genCase() CCase {
 		}
 		add("T", g.world(nisT, 3))
 	}
+	g.remoteMode(&c)
 	return c
 }
